@@ -1234,3 +1234,250 @@ func condOrdersAll(p *Prog, fn *ssa.Function, cond ssa.Value) string {
 	}
 	return ""
 }
+
+// ---- C03.REPLACE, second clause: a node created inside a key loop and filled there is attached before the iteration ends ----
+
+// c03Attach: a node that a key case creates (exec := &ExecAction{}) and stores parsed values into must become part of the
+// tree on every path to the end of the iteration: stored into a field, an element or a map, appended, passed on or
+// returned. Otherwise what one key stored is dropped when the next key creates its own node (`with:` before `uses:`).
+func c03Attach(c *Ctx) {
+	p := c.P
+	for _, fn := range p.Funcs {
+		if !strings.HasSuffix(p.unitFile(fn), "/parse.go") || fn.Parent() != nil {
+			continue
+		}
+		heads := loopHeaders(fn)
+		occ := map[string]int{}
+		must := p.mustStoreField("parser.errors")
+		eachInstr(fn, func(ab *ssa.BasicBlock, ai int, in ssa.Instruction) {
+			al, ok := in.(*ssa.Alloc)
+			if !ok || !al.Heap {
+				return
+			}
+			pt, ok := al.Type().Underlying().(*types.Pointer)
+			if !ok {
+				return
+			}
+			nm := namedOf(pt.Elem())
+			if nm == nil || nm.Obj().Pkg() == nil || nm.Obj().Pkg().Path() != modPath {
+				return
+			}
+			if _, isStruct := nm.Underlying().(*types.Struct); !isStruct {
+				return
+			}
+			// the innermost loop that contains the allocation
+			var body map[*ssa.BasicBlock]bool
+			var head *ssa.BasicBlock
+			for _, h := range heads {
+				nl := naturalLoop(h)
+				if nl[ab] && (body == nil || len(nl) < len(body)) {
+					body, head = nl, h
+				}
+			}
+			if body == nil {
+				return
+			}
+			// values that are the node: the allocation and the variables (phis) it is merged into
+			node := map[ssa.Value]bool{al: true}
+			for changed := true; changed; {
+				changed = false
+				for v := range node {
+					for _, ref := range *v.Referrers() {
+						switch r := ref.(type) {
+						case *ssa.Phi:
+							if !node[r] {
+								node[r] = true
+								changed = true
+							}
+						case *ssa.MakeInterface:
+							if !node[r] {
+								node[r] = true
+								changed = true
+							}
+						case *ssa.ChangeInterface:
+							if !node[r] {
+								node[r] = true
+								changed = true
+							}
+						}
+					}
+				}
+			}
+			isFill := func(x ssa.Instruction) bool {
+				st, ok := x.(*ssa.Store)
+				if !ok {
+					return false
+				}
+				fa, ok := st.Addr.(*ssa.FieldAddr)
+				return ok && node[fa.X] && !isNilConst(st.Val)
+			}
+			isAttach := func(x ssa.Instruction) bool {
+				switch r := x.(type) {
+				case *ssa.Store:
+					if !node[r.Val] {
+						return false
+					}
+					if a2, ok := r.Addr.(*ssa.Alloc); ok && !a2.Heap {
+						return false // a local variable
+					}
+					return true
+				case *ssa.MapUpdate:
+					return node[r.Value]
+				case *ssa.Return:
+					for _, v := range r.Results {
+						if node[v] {
+							return true
+						}
+					}
+				case *ssa.Send:
+					return node[r.X]
+				case ssa.CallInstruction:
+					for _, a := range r.Common().Args {
+						if node[a] {
+							return true
+						}
+					}
+					// a path on which the parser reports an error gives the node up on purpose (credentials without a
+					// password): the workflow is not clean
+					if gs := p.calleesOf(r); len(gs) > 0 {
+						all := true
+						for _, g := range gs {
+							if !must[g] {
+								all = false
+							}
+						}
+						if all {
+							return true
+						}
+					}
+				}
+				return false
+			}
+			filled := false
+			for b := range body {
+				for _, x := range b.Instrs {
+					if isFill(x) {
+						filled = true
+					}
+				}
+			}
+			if !filled {
+				return
+			}
+			tname := typeStr(al.Type())
+			occ[tname]++
+			construct := fmt.Sprintf("%s|node %s created in a loop#%d is attached", FuncName(fn), tname, occ[tname])
+			// forward from the allocation: (block, index, something stored yet)
+			type st struct {
+				b      *ssa.BasicBlock
+				stored bool
+			}
+			seen := map[st]bool{}
+			var lost token.Pos
+			var walk func(b *ssa.BasicBlock, from int, stored bool)
+			walk = func(b *ssa.BasicBlock, from int, stored bool) {
+				for i := from; i < len(b.Instrs); i++ {
+					x := b.Instrs[i]
+					if isAttach(x) {
+						return
+					}
+					if isFill(x) {
+						stored = true
+						if !lost.IsValid() {
+							_ = x
+						}
+					}
+				}
+				for _, s := range b.Succs {
+					if s == head || !body[s] {
+						if stored && !lost.IsValid() {
+							lost = b.Instrs[len(b.Instrs)-1].Pos()
+							if !lost.IsValid() {
+								lost = al.Pos()
+							}
+						}
+						continue
+					}
+					k := st{s, stored}
+					if seen[k] {
+						continue
+					}
+					seen[k] = true
+					walk(s, 0, stored)
+				}
+			}
+			walk(ab, ai+1, false)
+			if lost.IsValid() {
+				c.bad(construct, al.Pos(), "a path from the creation of the node stores a parsed value into it and reaches the next key (or the end of the loop) without the node being stored into the tree, appended, passed on or returned: what this key stored is lost when a later key creates the node again")
+			} else {
+				c.ok(construct, al.Pos(), "on every path on which a value is stored into the new node, the node becomes part of the tree before the iteration ends")
+			}
+		})
+	}
+}
+
+// mustStoreField: the module functions every path of which (entry to return) stores into the field, itself or through a
+// callee that always does (the error primitives of the parser for "parser.errors").
+func (p *Prog) mustStoreField(field string) map[*ssa.Function]bool {
+	key := "mustStoreField:" + field
+	if m, ok := p.memo(key).(map[*ssa.Function]bool); ok {
+		return m
+	}
+	must := map[*ssa.Function]bool{}
+	tfs := p.transFieldStores()
+	var cands []*ssa.Function
+	for fn, fs := range tfs {
+		if fs[field] {
+			cands = append(cands, fn)
+		}
+	}
+	sort.Slice(cands, func(i, j int) bool { return cands[i].Pos() < cands[j].Pos() })
+	for changed := true; changed; {
+		changed = false
+		for _, fn := range cands {
+			if must[fn] {
+				continue
+			}
+			hit := map[*ssa.BasicBlock]bool{}
+			for _, b := range fn.Blocks {
+				for _, in := range b.Instrs {
+					switch x := in.(type) {
+					case *ssa.Store:
+						if fa, ok := x.Addr.(*ssa.FieldAddr); ok && fieldAddrName(fa) == field {
+							hit[b] = true
+						}
+					case ssa.CallInstruction:
+						gs := p.calleesOf(x)
+						all := len(gs) > 0
+						for _, g := range gs {
+							if !must[g] {
+								all = false
+							}
+						}
+						if all {
+							hit[b] = true
+						}
+					}
+				}
+			}
+			// a return reachable from the entry without a hit?
+			escapes := false
+			if !hit[fn.Blocks[0]] {
+				for b := range reachableBlocks([]*ssa.BasicBlock{fn.Blocks[0]}, hit) {
+					if _, ok := b.Instrs[len(b.Instrs)-1].(*ssa.Return); ok {
+						escapes = true
+					}
+				}
+				if _, ok := fn.Blocks[0].Instrs[len(fn.Blocks[0].Instrs)-1].(*ssa.Return); ok {
+					escapes = true
+				}
+			}
+			if !escapes {
+				must[fn] = true
+				changed = true
+			}
+		}
+	}
+	p.setMemo(key, must)
+	return must
+}
